@@ -88,8 +88,10 @@ def run_mc(model, constants, workers=8, timeout=3600, cfg=None):
     meta = os.path.join(cdir, "meta.json")
     if os.path.exists(meta):
         return json.load(open(meta))
+    final_cdir = cdir
+    cdir = cdir + ".tmp%d" % os.getpid()
     os.makedirs(cdir, exist_ok=True)
-    cfgname = "_%s_%s.cfg" % (cfg, key)
+    cfgname = "_%s_%s_%d.cfg" % (cfg, key, os.getpid())
     cfgpath = os.path.join(SPEC, cfgname)
     with open(cfgpath, "w") as f:
         f.write(render_cfg(cfg, constants))
@@ -126,7 +128,12 @@ def run_mc(model, constants, workers=8, timeout=3600, cfg=None):
                transitions=generated, mc_wall_s=round(time.time() - t0, 1), never_taken=never, key=key)
     if ncases == 0:
         raise ToolError("model %s exported no behaviour" % model)
-    json.dump(res, open(meta, "w"))
+    res["cases"] = os.path.join(final_cdir, "cases.jsonl")
+    json.dump(res, open(os.path.join(cdir, "meta.json"), "w"))
+    try:
+        os.rename(cdir, final_cdir)
+    except OSError:
+        shutil.rmtree(cdir, ignore_errors=True)      # another run created it meanwhile
     return res
 
 
@@ -141,16 +148,19 @@ PROFILES = {  # name -> (cargo args, target sub-dir, binary sub-path)
 def build_harness(profiles, repo="/repo"):
     """cargo build of the harness against `repo`'s working tree. Returns {profile: binary}."""
     bins = {}
+    troot = os.path.join(HARNESS, "target")
+    if repo != "/repo":     # scratch copies get their own target dir so that concurrent runs do not overwrite binaries
+        troot = os.path.join(HARNESS, "target", "alt-" + hashlib.sha256(repo.encode()).hexdigest()[:10])
     for p in profiles:
         args, tdir, sub = PROFILES[p]
-        cmd = ["cargo"] + args + ["--offline", "--target-dir", os.path.join(HARNESS, "target", tdir)]
+        cmd = ["cargo"] + args + ["--offline", "--target-dir", os.path.join(troot, tdir)]
         if repo != "/repo":
             for crate in ("multiboot2", "multiboot2-common", "multiboot2-header"):
                 cmd += ["--config", 'patch.crates-io.%s.path="%s/%s"' % (crate, repo, crate)]
         r = sh(cmd, cwd=HARNESS, env=dict(os.environ, CARGO_NET_OFFLINE="true"))
         if r.returncode != 0:
             raise ToolError("cargo build failed for %s:\n%s" % (p, r.stdout[-6000:]))
-        bins[p] = os.path.join(HARNESS, "target", tdir, sub, "mb2conf")
+        bins[p] = os.path.join(troot, tdir, sub, "mb2conf")
     return bins
 
 
